@@ -196,6 +196,7 @@ func fetchDiamonds(repo string, store storage.Store, settings Settings,
 	doneWithKeysChan chan<- struct{}, doneChan <-chan struct{}, wg *sync.WaitGroup) {
 	defer func() {
 		close(batchChan)
+		drainKeys(keysChan) // let the key scanning and merging stages terminate
 		wg.Done()
 	}()
 
